@@ -561,6 +561,62 @@ def comps_hex(p):
     return "/".join(["2f"] + [c.encode().hex() for c in p.strip("/").split("/")])
 
 
+def glob_to_re(g):
+    """reference reading of the documented glob syntax: ? one char, * anything but '/', ** anything, [a-z] / [!a-z]
+    classes, {a,b} alternatives (nesting allowed), backslash escapes; the whole subject must match"""
+    import re as _re
+    out, i, depth = [], 0, 0
+    while i < len(g):
+        c = g[i]
+        if c == "\\" and i + 1 < len(g):
+            out.append(_re.escape(g[i + 1]))
+            i += 2
+            continue
+        if c == "*":
+            if g[i:i + 2] == "**":
+                out.append("(?s:.*)")
+                i += 2
+            else:
+                out.append("[^/]*")
+                i += 1
+            continue
+        if c == "?":
+            out.append("(?s:.)")
+        elif c == "[":
+            j = g.index("]", i + 2 if g[i + 1:i + 2] in ("!", "]") else i + 1)
+            body = g[i + 1:j]
+            neg = body.startswith("!")
+            if neg:
+                body = body[1:]
+            out.append("[" + ("^" if neg else "") + body.replace("\\", "\\\\").replace("[", "\\[") + "]")
+            i = j
+        elif c == "{":
+            out.append("(?:")
+            depth += 1
+        elif c == "}" and depth > 0:
+            out.append(")")
+            depth -= 1
+        elif c == "," and depth > 0:
+            out.append("|")
+        else:
+            out.append(_re.escape(c))
+        i += 1
+    return _re.compile("^(?:" + "".join(out) + ")$")
+
+
+def glob_match(g, text):
+    return glob_to_re(g).match(text) is not None
+
+
+CLI_SELECT = {
+    # patterns with commas: brace alternatives, a comma inside [...], a literal comma of a file name
+    "--keep-name": ["*.{a,zz}", "f0_[0,1]*", "f?_0,v.{a,b}", "{f0,f1}_*.b", "*,v.*"],
+    "--keep-path": ["**/{r0,golden}/**", "**/{d,nope}/*", "**/r[0,1]/**", "**/{sub,other}/**"],
+    "--name": ["*.{b,a}", "f{0,2}_*", "f[1,2]_*", "*_{0,1,2},v.*", "*.b"],
+    "--path": ["**/{r1,r2,sub}/**", "**/d/*.{a,b}", "**/{r0,r3}/**"],
+}
+
+
 def gen_cli(rng):
     """a tree of 1-3 classes of equal files over 2-3 roots (hard links included) + the `group` options"""
     # input roots at DIFFERENT depths, in any order (the order of the arguments is the order of the isolated
@@ -579,7 +635,7 @@ def gen_cli(rng):
         firsts = []
         for k in range(2 + rng.below(4)):
             r = rng.choice(roots)
-            rel = os.path.join(r, rng.choice(["", "d"]), "f%d_%d%s" % (c, k, rng.choice([".a", ".b"])))
+            rel = os.path.join(r, rng.choice(["", "d"]), "f%d_%d%s%s" % (c, k, ",v" if rng.chance(1, 6) else "", rng.choice([".a", ".b"])))
             f = {"rel": rel, "content": content, "link_of": None, "mtime": 1_600_000_000 + rng.below(4) * 100}
             if firsts and rng.chance(1, 4):
                 f["link_of"] = rng.choice(firsts)
@@ -591,7 +647,14 @@ def gen_cli(rng):
     prio = [rng.choice([4, 5, 10, 11, 1, 0])] if rng.chance(1, 2) else []
     if prio and rng.chance(1, 2):
         prio.append(rng.choice([4, 5, 10, 11]))      # also top/bottom FOLLOWED by another priority (K9 repaired by 7054be1)
-    return {"roots": roots, "files": files, "isolate": isolate, "hlinks": rng.chance(1, 2), "transform": rng.chance(1, 4),
+    select = []
+    if rng.chance(1, 2):
+        for _ in range(1 + rng.below(2)):
+            o = rng.choice(sorted(CLI_SELECT))
+            select += [o, rng.choice(CLI_SELECT[o])]
+    return {"roots": roots, "files": files, "isolate": isolate, "hlinks": rng.chance(1, 2),
+            # --transform in its I/O modes, always changing the length (the recorded length is 7)
+            "transform": rng.choice([None, None, None, "stream", "in", "in_place"]), "select": select,
             "mode": mode, "prio": prio,
             "cli_n": rng.choice([None, None, 1, 2, 3]),       # -n on the dedupe command line (both runs)
             # how the input roots are named: relative to --base-dir, itself relative to the working directory of `group`
@@ -632,8 +695,13 @@ def run_cli(ctx, spec, model_bin, fclones, tree, count=True):
         gopts.append("--isolate")
     if hlinks:
         gopts.append("-H")
-    if transform:
+    if transform is True or transform == "stream":
         gopts += ["--transform", "head -c 7"]
+    elif transform == "in":
+        gopts += ["--transform", "head -c 7 $IN"]
+    elif transform == "in_place":
+        gopts += ["--transform", "truncate -s 7 $IN", "--in-place"]
+    transform = bool(transform)
     rfo = None
     if mode in (1, 2):
         rfo = mode if not isolate else 1
@@ -648,6 +716,14 @@ def run_cli(ctx, spec, model_bin, fclones, tree, count=True):
     cli_n = spec.get("cli_n")
     if cli_n is not None:
         popts += ["-n", str(cli_n)]
+    select = spec.get("select") or []
+    popts += select                       # the same selection options on both dedupe command lines
+    selp = {"--keep-name": [], "--keep-path": [], "--name": [], "--path": []}
+    for i in range(0, len(select), 2):
+        selp[select[i]].append(select[i + 1])
+
+    def bitstr(pats, subject):
+        return "".join("1" if glob_match(g, subject) else "0" for g in pats) or "-"
     env = dict(os.environ, RAYON_NUM_THREADS="2")
     g = sh([fclones, "group"] + bopts + gopts + roots, gcwd, env=env)
     if g.returncode != 0:
@@ -674,7 +750,8 @@ def run_cli(ctx, spec, model_bin, fclones, tree, count=True):
     def rms(p):
         if p.returncode != 0:
             return "exit %d: %s" % (p.returncode, p.stderr[-300:])
-        return sorted(l[3:] for l in p.stdout.split("\n") if l.startswith("rm "))
+        import shlex
+        return sorted(shlex.split(l)[1] for l in p.stdout.split("\n") if l.startswith("rm "))
     ra, rb = rms(a), rms(b)
     # model: partition (merge h c) and partition (explicit h c) group by group
     groups, cur = [], None
@@ -697,12 +774,15 @@ def run_cli(ctx, spec, model_bin, fclones, tree, count=True):
         mem = []
         for f in gr["files"]:
             st = os.stat(f)
-            mem.append(" %s %d %d %d %d %d %d - %d,%d - - - - 1" % (
+            mem.append(" %s %d %d %d %d %d %d - %d,%d %s %s %s %s 1" % (
                 comps_hex(f), st.st_dev, st.st_ino, st.st_size, 1, st.st_mtime_ns, st.st_atime_ns,
-                st.st_ctime_ns // 10 ** 9, st.st_ctime_ns % 10 ** 9))
+                st.st_ctime_ns // 10 ** 9, st.st_ctime_ns % 10 ** 9,
+                bitstr(selp["--keep-name"], os.path.basename(f)), bitstr(selp["--keep-path"], f),
+                bitstr(selp["--name"], os.path.basename(f)), bitstr(selp["--path"], f)))
         hf = "%d %d %s %d %d %d %s %d" % (transform, hlinks, rfo if rfo is not None else "-", mode == 4, mode == 3,
                                          isolate, ",".join(comps_hex(os.path.join(tree, r)) for r in roots), ts_ns)
-        cfg = "rm %s 0 0 - %s %d - 0,0,0,0" % (cli_n if cli_n is not None else "-", ",".join(str(p) for p in prio) or "-", gr["glen"])
+        cfg = "rm %s 0 0 - %s %d - %d,%d,%d,%d" % (cli_n if cli_n is not None else "-", ",".join(str(p) for p in prio) or "-", gr["glen"],
+                                                 len(selp["--keep-name"]), len(selp["--keep-path"]), len(selp["--name"]), len(selp["--path"]))
         mlines.append("M " + hf + " # " + cfg + " |" + " ;".join(mem))
     mout = core.run_lines(model_bin, mlines) if mlines else []
     m_merge, m_expl = [], []
@@ -724,6 +804,10 @@ def run_cli(ctx, spec, model_bin, fclones, tree, count=True):
         ctx.distinct(("cli", json.dumps(spec, sort_keys=True)), isinstance(ra, list) and len(ra) > 0)
         ctx.bump("cli_group_options", " ".join(gopts) or "(none)")
         ctx.bump("cli_base_dir", bmode)
+        ctx.bump("cli_transform_mode", spec.get("transform") if spec.get("transform") is not True else "stream")
+        for i in range(0, len(select), 2):
+            ctx.bump("cli_selection_pattern", select[i] + " " + select[i + 1])
+        ctx.bump("cli_files_with_comma_in_name", sum(1 for f in spec["files"] if "," in f["rel"]))
         depths = [r.count("/") for r in roots]
         ctx.bump("cli_root_depths", "nested" if any(a != b and b.startswith(a + "/") for a in roots for b in roots)
                  else ("equal" if len(set(depths)) == 1 else ("deeper_after_shallower" if any(
@@ -737,6 +821,14 @@ def run_cli(ctx, spec, model_bin, fclones, tree, count=True):
            "inherit_removed": rel(ra), "explicit_opts": [x.replace(tree + "/", "<tree>/") for x in xopts], "explicit_removed": rel(rb),
            "model_merge_removed": rel(m_merge), "model_explicit_removed": rel(m_expl), "report": report_h[:3000].replace(tree, "<tree>")}
     shutil.rmtree(clidir, ignore_errors=True)
+    # the property itself, read with the reference glob: keep patterns protect, --name/--path restrict
+    if isinstance(ra, list):
+        for f in ra:
+            if any(glob_match(g, os.path.basename(f)) for g in selp["--keep-name"]) or any(glob_match(g, f) for g in selp["--keep-path"]):
+                return ("kept_file_removed", rec, "%s matches a --keep-name/--keep-path pattern of %s and is removed" % (f.replace(tree + "/", ""), select))
+            if (selp["--name"] or selp["--path"]) and not (any(glob_match(g, os.path.basename(f)) for g in selp["--name"])
+                                                          or any(glob_match(g, f) for g in selp["--path"])):
+                return ("non_matching_file_removed", rec, "%s matches none of the --name/--path patterns of %s and is removed" % (f.replace(tree + "/", ""), select))
     if ra != rb:
         return ("inherit_mismatch", rec, "`remove` with the options only in the report header drops %s, "
                 "with the same options given explicitly %s" % (rel(ra), rel(rb)))
@@ -800,7 +892,7 @@ def run(ctx):
             if "cli_spec" in rp:
                 f = run_cli(ctx, rp["cli_spec"], model_bin, core.build_fclones(), os.path.join(ctx.scratch, "cli"))
                 if f:
-                    ctx.violation({"kind": f[0]}, f[2], f[1], found_input=(f[0] == "inherit_mismatch"))
+                    ctx.violation({"kind": f[0]}, f[2], f[1], found_input=(f[0] != "cli_model_mismatch"))
                 return
             case = rp.get("minimised_case") or rp["case"]
             case = {k: v for k, v in case.items() if k != "_scratch"}
@@ -841,10 +933,10 @@ def run(ctx):
             fails += examine(ctx, ex, res2, mo2, scratch)
             ctx.extra["exhaustive_priority_lists_len_le_2"] = len(ex)
         fclones = core.build_fclones()
-        cli_fails = cli_layer(ctx, model_bin, fclones, ctx.pick(120, 1200))
+        cli_fails = cli_layer(ctx, model_bin, fclones, ctx.pick(160, 1500))
         report(ctx, fails, model_bin, scratch, dev2)
         for kind, rec, text in cli_fails[:5]:
-            ctx.violation({"kind": kind}, text, rec, found_input=(kind == "inherit_mismatch"))
+            ctx.violation({"kind": kind}, text, rec, found_input=(kind != "cli_model_mismatch"))
         ctx.extra["exhaustive"] = False
     finally:
         if dev2:
